@@ -112,6 +112,11 @@ func localsText(rs []LRule) string {
 				fmt.Fprintf(&sb, "  %s = mkobj(e, %d)\n", op.Name, n)
 			case "RM":
 				fmt.Fprintf(&sb, "  %s.Tell(e, %d)\n", op.Name, n)
+			case "WN":
+				fmt.Fprintf(&sb, "  %s = mkfn(e, %d)\n", op.Name, n)
+			case "RN":
+				// the function value held in the local is called; the closure tells which one it is
+				fmt.Fprintf(&sb, "  %s(e, %d)\n", op.Name, n)
 			case "CW":
 				fmt.Fprintf(&sb, "  conc {\n    %s = wrhold(e, %d)\n    noopc()\n  }\n", op.Name, n)
 			case "T":
@@ -212,6 +217,13 @@ func localsAPI() map[string]interface{} {
 			v := e*100 + i
 			theObs.Emit(obs.Event{"ev": "eop", "e": e, "i": i, "val": v})
 			return &LObj{V: v}
+		},
+		"mkfn": func(e int64, i int64) func(int64, int64) {
+			v := e*100 + i
+			theObs.Emit(obs.Event{"ev": "eop", "e": e, "i": i, "val": v})
+			return func(e2 int64, i2 int64) {
+				theObs.Emit(obs.Event{"ev": "eop", "e": e2, "i": i2, "val": v})
+			}
 		},
 		"tagv": func(e int64, i int64) bool {
 			theObs.Emit(obs.Event{"ev": "eop", "e": e, "i": i, "val": 0})
